@@ -1,6 +1,6 @@
 /-
-`ropeShortcutPath` never lengthens the path (model: `OmplModel.Model.PathOps`, C++:
-`PathSimplifier::ropeShortcutPath`, src/ompl/geometric/src/PathSimplifier.cpp lines 187-291), for any
+`ropeShortcutPathG` never lengthens the path (model: `OmplModel.Model.PathOps`, C++:
+`PathSimplifier::ropeShortcutPathG`, src/ompl/geometric/src/PathSimplifier.cpp lines 187-291), for any
 `dist` with the triangle inequality whose interpolated chains are geodesics.
 -/
 import OmplModel.Proofs.PathOpsRope
@@ -107,14 +107,14 @@ theorem JP_ite (P : List σ → Prop) (c : Prop) [Decidable c] (X : List σ) (o 
 
 theorem ropeInner_pres (E : RopeEnv σ γ) (fixed : Bool) (P : List σ → Prop)
     (hS : SpliceStable E P) (st : List σ) (i : Nat) (hP : P st) :
-    ∀ j, j < st.length → JP P (ropeInner E fixed st i j) := by
+    ∀ j, j < st.length → JP P (ropeInnerG E fixed st i j) := by
   intro j
   induction j with
-  | zero => intro _; simp [ropeInner, JP]
+  | zero => intro _; simp [ropeInnerG, JP]
   | succ j ih =>
     intro hj
     have ihj := ih (by omega)
-    rw [ropeInner]
+    rw [ropeInnerG]
     split
     · trivial
     · rename_i hij
@@ -144,20 +144,20 @@ theorem ropeInner_pres (E : RopeEnv σ γ) (fixed : Bool) (P : List σ → Prop)
 theorem ropeOuter_pres (E : RopeEnv σ γ) (fixed : Bool) (P : List σ → Prop)
     (hS : SpliceStable E P) :
     ∀ (fuel : Nat) (st : List σ) (i : Nat) (res oob : Bool) (out : List σ) (r o fo : Bool), P st →
-      ropeOuter E fixed fuel st i res oob = some (out, r, o, fo) → P out := by
+      ropeOuterG E fixed fuel st i res oob = some (out, r, o, fo) → P out := by
   intro fuel
   induction fuel with
   | zero =>
     intro st i res oob out r o fo hP h
-    rw [ropeOuter] at h
+    rw [ropeOuterG] at h
     simp only [Option.some.injEq, Prod.mk.injEq] at h
     exact h.1 ▸ hP
   | succ fuel ih =>
     intro st i res oob out r o fo hP h
-    rw [ropeOuter] at h
+    rw [ropeOuterG] at h
     split at h
     · have hk := ropeInner_pres E fixed P hS st i hP (st.length - 1) (by omega)
-      generalize ropeInner E fixed st i (st.length - 1) = jr at hk h
+      generalize ropeInnerG E fixed st i (st.length - 1) = jr at hk h
       cases jr with
       | ret st' changed o' =>
         simp only [Option.some.injEq, Prod.mk.injEq] at h
@@ -171,8 +171,8 @@ theorem ropeOuter_pres (E : RopeEnv σ γ) (fixed : Bool) (P : List σ → Prop)
 theorem rope_pres (E : RopeEnv σ γ) (P : List σ → Prop) (hS : SpliceStable E P)
     {fixed : Bool} {fuel : Nat} {path out : List σ} {r oob fo : Bool}
     (hpath : P path) (hdens : P (ropeDensify E path))
-    (h : ropeShortcutPath E fixed fuel path = some (out, r, oob, fo)) : P out := by
-  rw [ropeShortcutPath] at h
+    (h : ropeShortcutPathG E fixed fuel path = some (out, r, oob, fo)) : P out := by
+  rw [ropeShortcutPathG] at h
   split at h
   · simp only [Option.some.injEq, Prod.mk.injEq] at h
     exact h.1 ▸ hpath
@@ -180,13 +180,13 @@ theorem rope_pres (E : RopeEnv σ γ) (P : List σ → Prop) (hS : SpliceStable 
 
 /-! ## the required statement -/
 
-/-- ropeShortcutPath never lengthens the path, in any metric-like setting: `dist` obeys the triangle inequality and the
+/-- ropeShortcutPathG never lengthens the path, in any metric-like setting: `dist` obeys the triangle inequality and the
 interpolated chain between two states is a geodesic (its length is the distance of its ends) -/
 theorem rope_never_longer {α : Type} [AddCommMonoid α] [PartialOrder α] [IsOrderedAddMonoid α]
     (dist : σ → σ → α) (tri : ∀ a b c, dist a c ≤ dist a b + dist b c)
     (E : RopeEnv σ γ) (geo : ∀ a b n, pathLen dist (a :: (inters E a b n ++ [b])) = dist a b)
     {fixed : Bool} {fuel : Nat} {path out : List σ} {r oob fo : Bool}
-    (h : ropeShortcutPath E fixed fuel path = some (out, r, oob, fo)) : pathLen dist out ≤ pathLen dist path := by
+    (h : ropeShortcutPathG E fixed fuel path = some (out, r, oob, fo)) : pathLen dist out ≤ pathLen dist path := by
   refine rope_pres E (fun st => pathLen dist st ≤ pathLen dist path) ?_ (le_refl _) ?_ h
   · intro st i d n hi hd hid hP
     exact le_trans (pathLen_splice_le dist tri E geo st i d n hi hd hid) hP
